@@ -312,9 +312,11 @@ func (s *fileScn) step(p int, op string, whole []fline, added []fline) {
 	s.watch.mu.Lock()
 	c := s.watch.ch[fn]
 	s.watch.mu.Unlock()
-	limit := 5 * time.Second
-	if s.watch.missed >= 2 {
-		limit = time.Second // the watcher of this process is evidently not reloading; do not wait long again
+	// a healthy watcher reloads within milliseconds; the generous limit only costs time when it does not,
+	// and keeps a loaded machine from turning slowness into a liveness verdict
+	limit := 20 * time.Second
+	if s.watch.missed >= 1 {
+		limit = 2 * time.Second // the watcher of this process is evidently not reloading; do not wait long again
 	}
 	if bytes.Equal(now, old) {
 		// nothing changed on disk (e.g. truncating an empty file): a reload may or may not
